@@ -173,3 +173,45 @@ func VerifH_C17_cut() {
 	vCover("C17.cut.write-fails", failAt == 9 && cut == len(wire) && returned)
 	vCover("C17.cut.handler-running", hold && started == 2)
 }
+
+// The write side fails (from byte 0, 9 or 40 on) and the peer keeps sending:
+// 140 PING frames, each of which makes the read loop queue an acknowledgement
+// that nothing writes any more - more than the queue of frames to write holds -
+// and then goes away. Serve returns and nothing is left behind.
+//
+//verif:harness prop=C17,C10 unwind=600 timeout=900
+func VerifH_C17_flood() {
+	failAt := [3]int{0, 9, 40}[vRange(0, 2)]
+	conn := &vConn{in: make(chan []byte, 4), done: make(chan struct{})}
+	conn.w.failAt = failAt
+	sc := vNewServerConn()
+	sc.c = conn
+	sc.br = bufio.NewReaderSize(conn, 256)
+	sc.bw = bufio.NewWriterSize(conn, 256)
+	sc.st.maxStreams = 8
+	sc.maxHeaderList = DefaultMaxHeaderListSize
+	sc.pingInterval = -1
+	sc.h = func(ctx *fasthttp.RequestCtx) { ctx.Response.SetStatusCode(200) }
+	result := make(chan error, 1)
+	go func() { result <- sc.Serve() }()
+	wire := vFrame(0x4, 0x0, 0, nil)
+	wire = append(wire, vFrame(0x1, 0x5, 1, vReqBlock('1'))...)
+	for i := 0; i < 140; i++ {
+		wire = append(wire, vFrame(0x6, 0x0, 0, []byte{0, 0, 0, 0, 0, 0, 0, byte(i)})...)
+	}
+	conn.in <- wire
+	vSettle()
+	close(conn.in)
+	vSettle()
+	returned := false
+	select {
+	case <-result:
+		returned = true
+	default:
+	}
+	vAssert(returned, "C17.flood.serve-returns-although-nothing-can-be-written")
+	_ = conn.Close()
+	vSettle()
+	vAssert(vLiveTasks() == 0, "C17.flood.no-task-left-behind")
+	vCover("C17.flood.early", failAt == 0 && returned)
+}
